@@ -60,6 +60,7 @@ pub fn main(args: &[String]) -> i32 {
         Some("run") => run(&args[1..]),
         Some("child") => child(),
         Some("render") => render(),
+        Some("script-worker") => script_worker(&args[1..]),
         _ => {
             eprintln!(
                 "usage: nvh proc gen --seed S --n N --spawn M --dir D [--big 0|1] | nvh proc run --dir D < requests"
@@ -689,6 +690,98 @@ enum ScriptEnd {
     Clean,
     Runtime(String, String),
     FrontEnd(String),
+    /// the interpreter process died (abort, signal) while running the script
+    Died(String),
+}
+
+/// Path of the binary that runs scripts in a process of its own (`--worker`, default: this binary).
+static WORKER: std::sync::OnceLock<String> = std::sync::OnceLock::new();
+
+/// `nvh proc script-worker <allow> <14 caps>`: run the script on stdin through the library pipeline
+/// and print `fds …` (this process's standard descriptors: it is the parent of whatever the script
+/// spawns) and the outcome. A corrupted interpreter may abort here without taking the harness along.
+fn script_worker(args: &[String]) -> i32 {
+    use std::io::Read;
+    let nums: Vec<u32> = args.iter().skip(1).filter_map(|n| n.parse().ok()).collect();
+    if args.is_empty() || nums.len() != 14 {
+        return 2;
+    }
+    let mut src = String::new();
+    if std::io::stdin().lock().read_to_string(&mut src).is_err() {
+        return 2;
+    }
+    let fds: Vec<String> = (0..3)
+        .map(|fd| {
+            let s = fd_stat(fd);
+            format!("{} {} {}", s.kind as char, s.dev, s.ino)
+        })
+        .collect();
+    println!("fds {}", fds.join(" "));
+    let policy = HostPolicy { allow_process: args[0] == "1", process: caps_from(&nums) };
+    match run_script(&src, policy) {
+        ScriptEnd::Clean => println!("clean"),
+        ScriptEnd::Runtime(m, l) => println!("runtime {} {}", hex_s(&m), hex_s(&l)),
+        ScriptEnd::FrontEnd(m) => println!("frontend {}", hex_s(&m)),
+        ScriptEnd::Died(m) => println!("frontend {}", hex_s(&m)),
+    }
+    0
+}
+
+/// Run a script in a worker process; also returns the worker's standard descriptors.
+fn run_script_isolated(src: &str, policy: HostPolicy) -> (ScriptEnd, Option<[FdStat; 3]>) {
+    use std::io::Write;
+    use std::process::{Command, Stdio};
+    let exe = WORKER
+        .get()
+        .cloned()
+        .or_else(|| std::env::current_exe().ok().and_then(|p| p.to_str().map(str::to_string)))
+        .unwrap_or_default();
+    let mut cmd = Command::new(exe);
+    cmd.args(["proc", "script-worker", if policy.allow_process { "1" } else { "0" }]);
+    for (_, v) in caps_fields(&policy.process) {
+        cmd.arg(v.to_string());
+    }
+    cmd.stdin(Stdio::piped()).stdout(Stdio::piped()).stderr(Stdio::inherit());
+    let mut child = match cmd.spawn() {
+        Ok(c) => c,
+        Err(e) => return (ScriptEnd::Died(format!("worker not started: {e}")), None),
+    };
+    if let Some(mut stdin) = child.stdin.take() {
+        let _ = stdin.write_all(src.as_bytes());
+    }
+    let out = match child.wait_with_output() {
+        Ok(o) => o,
+        Err(e) => return (ScriptEnd::Died(format!("worker not awaited: {e}")), None),
+    };
+    let text = String::from_utf8_lossy(&out.stdout);
+    let mut fds = None;
+    let mut end = None;
+    for line in text.lines() {
+        let w: Vec<&str> = line.split(' ').collect();
+        match w.as_slice() {
+            ["fds", rest @ ..] if rest.len() == 9 => {
+                let mut a = [FdStat { kind: b'x', dev: 0, ino: 0 }; 3];
+                for i in 0..3 {
+                    a[i] = FdStat {
+                        kind: rest[3 * i].as_bytes()[0],
+                        dev: rest[3 * i + 1].parse().unwrap_or(0),
+                        ino: rest[3 * i + 2].parse().unwrap_or(0),
+                    };
+                }
+                fds = Some(a);
+            }
+            ["clean"] => end = Some(ScriptEnd::Clean),
+            ["runtime", m, l] => {
+                end = Some(ScriptEnd::Runtime(utf8(m).unwrap_or_default(), utf8(l).unwrap_or_default()))
+            }
+            ["frontend", m] => end = Some(ScriptEnd::FrontEnd(utf8(m).unwrap_or_default())),
+            _ => {}
+        }
+    }
+    match end {
+        Some(e) if out.status.success() => (e, fds),
+        _ => (ScriptEnd::Died(format!("{}", out.status)), fds),
+    }
 }
 
 fn run_script(src: &str, policy: HostPolicy) -> ScriptEnd {
@@ -883,7 +976,7 @@ fn do_run(h: &Hist, caps: &ProcessCaps, allow: Option<bool>, shape: Shape) -> (S
     let _ = std::fs::remove_file(&report);
     let _ = std::fs::remove_file(format!("{report}.tmp"));
     let penv = parent_env();
-    let pfds = [fd_stat(0), fd_stat(1), fd_stat(2)];
+    let mut pfds = [fd_stat(0), fd_stat(1), fd_stat(2)];
     let pcwd = std::env::current_dir().unwrap_or_else(|_| PathBuf::from("/"));
     let s = shadow(&h.ops);
     let mut bad: Vec<String> = Vec::new();
@@ -893,7 +986,11 @@ fn do_run(h: &Hist, caps: &ProcessCaps, allow: Option<bool>, shape: Shape) -> (S
             let Some(src) = render_script(&h.program, &h.ops, shape, true) else {
                 return ("bad-op".into(), vec![]);
             };
-            match run_script(&src, HostPolicy { allow_process: allow, process: *caps }) {
+            let (end, worker_fds) = run_script_isolated(&src, HostPolicy { allow_process: allow, process: *caps });
+            if let Some(f) = worker_fds {
+                pfds = f;
+            }
+            match end {
                 ScriptEnd::Clean => Ok(()),
                 ScriptEnd::Runtime(msg, label) => match msg.as_str() {
                     "Process execution denied" => Err("denied".into()),
@@ -901,6 +998,10 @@ fn do_run(h: &Hist, caps: &ProcessCaps, allow: Option<bool>, shape: Shape) -> (S
                     other => Err(format!("error:{}", err_token(other))),
                 },
                 ScriptEnd::FrontEnd(m) => Err(format!("script-error:{}", err_token(&m))),
+                ScriptEnd::Died(m) => {
+                    bad.push(format!("the interpreter died while running the script ({m})"));
+                    Err(format!("died:{}", err_token(&m)))
+                }
             }
         }
         None => match h.cmd.validate(caps) {
@@ -1062,7 +1163,9 @@ fn step(w: &[&str], caps: &mut ProcessCaps, hist: &mut Option<Hist>) -> (String,
                             ("refused".to_string(), vec![])
                         }
                         ScriptEnd::Runtime(m, l) => (format!("error:{}:{}", err_token(&m), err_token(&l)), vec![]),
-                        ScriptEnd::FrontEnd(m) => (format!("script-error:{}", err_token(&m)), vec![]),
+                        ScriptEnd::FrontEnd(m) | ScriptEnd::Died(m) => {
+                            (format!("script-error:{}", err_token(&m)), vec![])
+                        }
                     }
                 }
                 ["clone"] => {
@@ -1164,6 +1267,9 @@ fn run(args: &[String]) -> i32 {
             let _ = std::fs::create_dir_all(Path::new(dir).join(sub));
         }
         let _ = std::fs::create_dir_all(dir);
+    }
+    if let Some(w) = util::opt(args, "--worker") {
+        let _ = WORKER.set(w.to_string());
     }
     let lines = util::stdin_lines();
     let mut out = Out::new();
